@@ -226,18 +226,20 @@ class Send(Harness):
                     ctx.label("extended-timeout")
                     ctx.check(any(e["pkt"] == i and e["name"] == "setExtendedTimeout" for e in log), "%s: no extended-timeout set-up" % what, "no-timeout-setup")
             ctx.check(len(app._pending) == 0, "bookkeeping left behind: %r" % (list(app._pending),), "pending-leak")
-            # set-up + send of one request are never interleaved with another request's
-            open_pkt = None
-            for e in log:
+            # set-up + send of one request are never interleaved with another request's set-up and send:
+            # between a request's latest set-up command and each of its following send attempts the NCP sees no
+            # set-up / send command of another request
+            last_setup = {}
+            for j, e in enumerate(log):
                 if e["pkt"] is None:
                     continue
-                if open_pkt is not None and e["pkt"] != open_pkt and (e["name"] in SETUP or e["name"] in SENDS):
-                    ctx.fail("command %s of packet %d was sent between the set-up and the send of packet %d (NCP saw %r)"
-                             % (e["name"], e["pkt"], open_pkt, [(x["pkt"], x["name"]) for x in log]), "setup-interleaved")
                 if e["name"] in SETUP:
-                    open_pkt = e["pkt"]
-                elif e["name"] in SENDS:
-                    open_pkt = None
+                    last_setup[e["pkt"]] = j
+                elif e["name"] in SENDS and e["pkt"] in last_setup:
+                    between = [x for x in log[last_setup[e["pkt"]] + 1:j] if x["pkt"] is not None and x["pkt"] != e["pkt"] and (x["name"] in SETUP or x["name"] in SENDS)]
+                    if between:
+                        ctx.fail("command %s of packet %d reached the NCP between the set-up and the send of packet %d (NCP saw %r)"
+                                 % (between[0]["name"], between[0]["pkt"], e["pkt"], [(x["pkt"], x["name"]) for x in log]), "setup-interleaved")
             if n > 1 and len({e["pkt"] for e in log if e["name"] in SETUP}) + (1 if any(e["name"] in SENDS for e in log) else 0) >= 2:
                 ctx.label("two-setups-concurrent")
             ctx.observe(V, pk, [[a["status"] for a in per[i]["attempts"]] for i in range(n)], [per[i]["conf"] for i in range(n)], {i: o[0] for i, o in outcomes.items()},
